@@ -56,7 +56,7 @@ pub fn locality_case(ctx: &mut Ctx, ls: &Layouts, compressed: bool, frame: &[u8]
     let strip = |s: &str| s.rsplit_once(" rem=").map(|(h, _)| h.to_string()).unwrap_or(s.to_string());
     let rem_b: usize = b.rsplit_once(" rem=").and_then(|(_, r)| r.parse().ok()).unwrap_or(usize::MAX);
     if strip(&a) != strip(&b) || (rem_b != tail.len() && !a.starts_with("none") && !a.starts_with("err framing")) {
-        ctx.violation("c04/not-frame-local", "bytes after the announced frame influenced the result or were consumed", &format!("pkt.dec {}", frame_text(compressed, &both)), &format!("{} rem={}", strip(&a), tail.len()), &b);
+        ctx.violation("c04/not-frame-local", "bytes after the announced frame influenced the result or were consumed", &format!("pkt.loc {} {}", frame_text(compressed, frame), if tail.is_empty() { "-".to_string() } else { hex(tail) }), &format!("{} rem={}", strip(&a), tail.len()), &b);
     }
 }
 
@@ -66,6 +66,8 @@ pub fn run(ctx: &mut Ctx) {
         for l in lines {
             let w: Vec<&str> = l.split_whitespace().collect();
             if let ["pkt.dec", m, h] = w.as_slice() { hostile_case(ctx, &ls, *m == "c", &unhex(h), "replay"); }
+            // a frame and what follows it in the buffer: `pkt.loc <mode> <frame> <tail>`
+            if let ["pkt.loc", m, h, t] = w.as_slice() { locality_case(ctx, &ls, *m == "c", &unhex(h), &if *t == "-" { vec![] } else { unhex(t) }); }
         }
         return;
     }
@@ -101,6 +103,9 @@ pub fn run(ctx: &mut Ctx) {
                     let mut g = f[..k * 4].to_vec();
                     g[0] = size_byte(compressed, g.len());
                     hostile_case(ctx, &ls, compressed, &g, "short-announcement");
+                    // … with the rest of the stream right behind it: a frame that is too short for its kind must not borrow
+                    // what it lacks from the next frame
+                    if k <= 3 || k % 5 == 0 { locality_case(ctx, &ls, compressed, &g, &f[k * 4..]); locality_case(ctx, &ls, compressed, &g, &[size_byte(compressed, 4), 3, 2, 3]); }
                 }
                 // extension + locality
                 let tail: Vec<u8> = (0..ctx.rng.below(9)).map(|_| ctx.rng.byte()).collect();
@@ -172,6 +177,19 @@ pub fn run(ctx: &mut Ctx) {
                 // gen_frame cuts at the mode's limit: only frames that really hold all n elements are interesting here, the
                 // cut ones are ordinary truncations (covered above) — both are run
                 hostile_case(ctx, &ls, compressed, &f, "many-elements");
+            }
+        }
+        // texts that fill their frame to the last byte (no NUL behind them: the encoder's own output when the text is a
+        // multiple of four long) followed by another frame: the text ends where the frame ends
+        for l in ls.kinds.clone().iter() {
+            let custom = l["custom_body"].as_bool() == Some(true);
+            if !custom && l["tail"]["k"] != "streof" { continue; }
+            let ty = l["type_no"].as_u64().unwrap() as u8;
+            for text in [&b"abcd"[..], b"pit now!", b"^C\xef\xf0\xe8\xe2\xe5\xf2", b"abcdefghijkl"] {
+                let mut f = vec![0u8, ty, 0, 0, 0, 0, 0, 0];
+                f.extend_from_slice(text);
+                f[0] = size_byte(compressed, f.len());
+                for tail in [&[size_byte(compressed, 4), 3, 2, 3][..], b"more text\0\0\0", &[0x41u8][..]] { locality_case(ctx, &ls, compressed, &f, tail); }
             }
         }
         // the two kinds whose list is a *set* in the crate (allowed mods, banned addresses): the peer may well name one entry
